@@ -84,7 +84,14 @@ def load_known():
 
 # ---------------- build steps ----------------
 def run_translator(ctx):
-    r = subprocess.run([sys.executable, os.path.join(VERIF, 'translator', 'translate.py')], capture_output=True, text=True)
+    env = dict(os.environ)
+    try:
+        h, _ = vlib.build_harness('asan')      # cached by content hash; lets the translator fall back to probing the built code
+        if h:
+            env['THEO_HARNESS'] = h
+    except Exception:
+        pass
+    r = subprocess.run([sys.executable, os.path.join(VERIF, 'translator', 'translate.py')], capture_output=True, text=True, env=env)
     if r.returncode != 0:
         ctx.stage_broken('translator', (r.stdout + r.stderr).strip()[-600:])
         return False
